@@ -547,32 +547,35 @@ func (fc *FuncCtx) callNamed(key string, fn *types.Func, args []Term, call *ast.
 		}
 	}
 	// a call site the caller's contract asks to inline (the callee's loops get call-site invariants)
-	if ref != nil && ref.Decl.Body != nil && fc.inlineSite == "" {
+	if ref != nil && ref.Decl.Body != nil {
 		site := ""
 		named := false
-		if call != nil {
+		if call != nil && fc.inlineSite == "" {
 			site = fmt.Sprintf("%s#%d", fc.callName[call], fc.callOrd[call])
 			_, named = fc.callName[call]
 		}
 		if !(named && fc.Con.InlineAt[site]) {
+			named = false
 			// `inline-call F` (no ordinal): every call of F reached while executing this function, also through
 			// inlined helpers, is inlined with the loop invariants `loop F/n`
 			short := key
 			if i := strings.LastIndex(short, "."); i >= 0 {
 				short = short[i+1:]
 			}
-			if fc.Con.InlineAt[short] {
+			if fc.Con.InlineAt[short] && !callFreeLiteralsOnly(args) {
+				// (a call whose function arguments are all call-free literals, e.g. a field projection, stays a
+				// contract call: nothing in it needs call-site invariants, and the callee's postcondition is more precise)
 				site = short
 				named = true
 			}
 		}
 		if named && fc.Con.InlineAt[site] {
 			fc.Deps[key+" (body inlined at call site "+site+" with call-site loop invariants)"] = true
-			save := fc.inlineSite
+			save, saveRef := fc.inlineSite, fc.inlineRef
 			fc.inlineSite = site
 			fc.inlineRef = ref
 			res := fc.inlineCall(ref, fn, args, call, st)
-			fc.inlineSite = save
+			fc.inlineSite, fc.inlineRef = save, saveRef
 			return res
 		}
 	}
@@ -679,6 +682,32 @@ func (fc *FuncCtx) tsubstFor(call *ast.CallExpr, fn *types.Func) map[string]*Sor
 		m[sig.TypeParams().At(i).Obj().Name()] = fc.sortOf(inst.TypeArgs.At(i))
 	}
 	return m
+}
+
+// callFreeLiteralsOnly: there is at least one function-valued argument and every one of them is a literal
+// whose body contains no call.
+func callFreeLiteralsOnly(args []Term) bool {
+	n := 0
+	for _, a := range args {
+		if a.Fn == nil {
+			continue
+		}
+		n++
+		if a.Fn.Kind != "lit" || a.Fn.Lit == nil {
+			return false
+		}
+		hasCall := false
+		ast.Inspect(a.Fn.Lit.Body, func(nd ast.Node) bool {
+			if _, ok := nd.(*ast.CallExpr); ok {
+				hasCall = true
+			}
+			return !hasCall
+		})
+		if hasCall {
+			return false
+		}
+	}
+	return n > 0
 }
 
 // tsubstTypesFor: the Go types the type parameters of a generic call are instantiated with.
@@ -1395,11 +1424,31 @@ func (fc *FuncCtx) afterWrappedCalls(w *FuncVal, pre, st *St, pos string, callee
 		// (which accounts for what its callbacks did)
 		listed := false
 		for _, m := range callee.Modifies {
-			if m == "glob:"+g {
+			if m == "glob:"+g || "store:"+m == g {
 				listed = true
 			}
 		}
 		if listed {
+			continue
+		}
+		if g == "store:maps" {
+			// the function behind the callback writes maps (its contract says so): whatever the callee's contract
+			// says about its own effects, the maps are unknown afterwards
+			nn := fc.fresh("next", SInt)
+			st.assume(Le(st.next, nn))
+			st.next = nn
+			fc.materialiseStores(st, true, false)
+			for k := range st.mdom {
+				st.mdom[k] = fc.fresh("mdom", st.mdom[k].Sort)
+			}
+			for k := range st.mval {
+				st.mval[k] = fc.fresh("mval", st.mval[k].Sort)
+			}
+			continue
+		}
+		if g == "store:bufs" {
+			fc.bufHeap(st)
+			st.bufh = fc.fresh("bufh", st.bufh.Sort)
 			continue
 		}
 		if ty, ok := fc.E.CS.Globals[g]; ok {
@@ -1448,6 +1497,8 @@ func (fc *FuncCtx) panicCondOf(fv *FuncVal, args []Term, st *St, depth int) (con
 		for _, m := range con.Modifies {
 			if strings.HasPrefix(m, "glob:") {
 				mods = append(mods, strings.TrimPrefix(m, "glob:"))
+			} else if m == "maps" || m == "bufs" {
+				mods = append(mods, "store:"+m)
 			}
 		}
 		env := fc.newEnv(st)
